@@ -7,6 +7,7 @@
 import Driver.MeshIO
 import PolyVerif.Gen.Transform
 import PolyVerif.Model.MeshTransforms
+import PolyVerif.Model.MeshCallbacks
 
 namespace Driver.MeshIO
 open PolyVerif PolyVerif.Mesh PolyVerif.Gen
@@ -64,8 +65,31 @@ def keepFromFlags (idx : List Nat) (flags : List Bool) : Nat → Nat → Nat →
     | some e => e.2
     | none => false
 
+/-- worker pool token: `seq` (sequential method) and `par` (NumCPU) never reject on the pool size -/
+def pPool : Parser Nat
+  | "seq" :: ts => some (1, ts)
+  | "par" :: ts => some (1, ts)
+  | t :: ts => t.toNat?.map (·, ts)
+  | [] => none
+
+/-- the callback the harness passes to ModifyFloatNAttribute: first component + i, second + 2i, the rest untouched -/
+def modifyCb (i : Nat) (p : P) : P :=
+  p.mapIdx fun j c => if j = 0 then c + i.toFloat else if j = 1 then c + (2 * i).toFloat else c
+
 def applyOp (op : String) (ts : List String) : Option (Option (List MV)) :=
   match op with
+  | "scan" => do
+      let (w, ts) ← pNat ts; let (name, ts) ← pTok ts; let (pool, ts) ← pPool ts
+      let (m, _) ← pMesh ts
+      oneO (m.scanAttr ⟨w, name⟩ pool)
+  | "scanprims" => do
+      let (pool, ts) ← pPool ts
+      let (m, _) ← pMesh ts
+      oneO (m.scanPrimitives pool)
+  | "modify" => do
+      let (w, ts) ← pNat ts; let (name, ts) ← pTok ts; let (pool, ts) ← pPool ts
+      let (m, _) ← pMesh ts
+      oneO (m.modifyAttrIdx ⟨w, name⟩ pool modifyCb)
   | "unweld" => do let (m, _) ← pMesh ts; one m.unweld
   | "removeunref" => do let (m, _) ← pMesh ts; one m.removeUnreferenced
   | "flip" => do let (m, _) ← pMesh ts; oneO m.flip
